@@ -87,6 +87,67 @@ def callee_name(t):
     return c.get("rfull") or c.get("full") or "", c.get("rpath") or c.get("path") or ""
 
 
+def unordered_chain(P, k, b, term):
+    """A hash container's iterator that only runs through adaptors whose closures capture nothing (map, filter, cloned, copied) into a
+    collect()/from_iter() that builds a keyed or sorted container (HashMap, HashSet, BTreeMap, BTreeSet): the order of the visit cannot
+    reach any output.  -> the blocks of the chain, or None"""
+    cr = P.crate_of[k]
+    if term.get("dest") is None or term["dest"].get("proj") or term.get("target") is None:
+        return None
+    tracked = {term["dest"]["local"]}
+    cur = term["target"]
+    blocks = []
+    for _ in range(8):
+        bl = b["blocks"][cur]
+        for st in bl["stmts"]:
+            if st["k"] == "assign" and st["rv"]["k"] == "use" and not st["place"]["proj"]:
+                o = st["rv"]["op"] if "op" in st["rv"] else st["rv"].get("o")
+                pl = o.get("move") or o.get("copy") if isinstance(o, dict) else None
+                if pl and not pl["proj"] and pl["local"] in tracked:
+                    tracked.add(st["place"]["local"])
+        t = bl["term"]
+        if t["k"] != "call" or not t["args"]:
+            return None
+        a0 = t["args"][0].get("move") or t["args"][0].get("copy")
+        if not a0 or a0["proj"] or a0["local"] not in tracked:
+            return None
+        full, rp = callee_name(t)
+        blocks.append(cur)
+        if re.search(r"Iterator>?::(map|filter|cloned|copied)$", rp):
+            def captures_nothing(a):
+                if "const" in a:
+                    return True
+                pl = a.get("move") or a.get("copy")
+                for st in bl["stmts"]:
+                    if st["k"] == "assign" and st["place"] == {"local": pl["local"], "proj": []} and st["rv"]["k"] == "agg" \
+                            and st["rv"]["kind"].get("k") == "closure" and not st["rv"]["ops"] and bool(pl) and not pl["proj"]:
+                        # ... and writes nothing anywhere: no I/O and no shared cell below it
+                        ck = st["rv"]["kind"].get("path")
+                        if ck not in P.body:
+                            return False
+                        for k2 in P.reachable([ck]):
+                            for _, t2, _, _ in P.call_sites(k2):
+                                n2 = callee_name(t2)[1]
+                                if re.search(r"^std::io::|_print$|^std::fs::|Cell::<T>::set$|RefCell::<T>::borrow_mut$|^std::env::", n2):
+                                    return False
+                        return True
+                return False
+            if not all(captures_nothing(a) for a in t["args"][1:]):
+                return None             # a closure that captures something
+            if t.get("dest") is None or t["dest"].get("proj") or t.get("target") is None:
+                return None
+            tracked.add(t["dest"]["local"])
+            cur = t["target"]
+            continue
+        if "::collect" in rp or "from_iter" in rp:
+            for g in t["callee"].get("rgenerics", []) + t["callee"].get("generics", []):
+                if re.match(r"^std::collections::(HashMap|HashSet|BTreeMap|BTreeSet)<", cr.types[g]["s"]):
+                    return blocks
+            return None
+        return None
+    return None
+
+
 def rules_on(P, rep, tag="", roots=None, fixture=False):
     """Run R1..R4 on a Program; returns dict rule -> number of violating instances (used by the positive control)."""
     fired = {"R1": 0, "R3": 0, "R4": 0}
@@ -144,10 +205,22 @@ def rules_on(P, rep, tag="", roots=None, fixture=False):
     for k in sorted(reach):
         b = P.body[k]
         cr = P.crate_of[k]
+        cleared = set()
+        for bb, term, name, targets in P.call_sites(k):
+            full, rp = callee_name(term)
+            if re.search(r"std::collections::(HashMap|HashSet)::<.*?>::(iter|keys|values)$", rp):
+                chain = unordered_chain(P, k, b, term)
+                if chain is not None:
+                    cleared.add(bb)
+                    cleared.update(chain)
+                    if not fixture:
+                        rep.ob("C17.hash-iter-unordered|%s" % k, True, "a hash container is visited in %s only to build another keyed container through closures that capture nothing: the order of the visit reaches no output" % k.split("::")[-1], loc=loc_of(b["blocks"][bb]["tspan"]))
         for bb, term, name, targets in P.call_sites(k):
             ncalls += 1
             full, rp = callee_name(term)
             loc = loc_of(b["blocks"][bb]["tspan"])
+            if bb in cleared:
+                continue
             # R3a: iteration over a hash container
             m = HASH_ITER.search(rp) or HASH_ITER.search(full)
             into_iter_hash = False
